@@ -24,6 +24,12 @@ def verify_function(prog, spec, con, mode='seq', options=None):
         v = ex.fresh_val(p['t'], 'arg_' + p['n'], st)
         args.append(v)
         env[p['n']] = ('val', v)
+        try:
+            ut = prog.under(p['t'])[1]
+            if ut.get('kind') == 'pointer' and ex.typed_struct(ut['elem']) and isinstance(v.x, PAddr):
+                ex.assume_ptype(st, v.x, ut['elem'], maybe_nil=True)
+        except Exception:
+            pass
     bindings = []
     for p in f['freevars']:
         v = ex.fresh_val(p['t'], 'fv_' + p['n'], st)
@@ -83,6 +89,19 @@ def verify_function(prog, spec, con, mode='seq', options=None):
 
     def at_return(stf, res):
         env2 = dict(env)
+        # a returned pointer is handed to other code: the object is no longer private to this path
+        def esc(v):
+            if isinstance(v.x, PAddr):
+                ex.note_escape(stf, v.x.term())
+            elif isinstance(v.x, (list, tuple)):
+                for y in v.x:
+                    if isinstance(y, V):
+                        esc(y)
+            elif z3.is_expr(v.x) and v.x.sort() == Addr:
+                ex.note_escape(stf, v.x)
+        for r in res:
+            if isinstance(r, V):
+                esc(r)
         for names, r in zip(spec.result_names(f), res):
             for n in names:
                 env2[n] = ('val', r)
@@ -329,6 +348,7 @@ def discharge(obls, timeout_ms=10000, external=True, hints=None):
             try:
                 pairs = INST.flatten(o.goal)
                 allok = True
+                used_e = [False]
                 for (extra, g) in pairs:
                     if INST.contains_quant(g):
                         allok = False
@@ -336,6 +356,19 @@ def discharge(obls, timeout_ms=10000, external=True, hints=None):
                     asm = list(o.assumptions) + list(extra)
                     qf = INST.drop_quantified(asm)
                     res2 = z3.unknown
+                    # the skolemised conjunct alone, E-matching only: small goals reach their instances through triggers
+                    try:
+                        se = z3.Solver()
+                        se.set('timeout', int(timeout_ms))
+                        se.set('auto_config', False)
+                        se.set('mbqi', False)
+                        se.add(*asm)
+                        se.add(z3.Not(g))
+                        if se.check() == z3.unsat:
+                            used_e[0] = True
+                            continue
+                    except z3.Z3Exception:
+                        pass
                     # progressively wider candidate sets: skolem-derived terms, then index terms / constants, then all
                     for maxrank, to in ((0, 2000), (1, min(timeout_ms, 6000)), (9, timeout_ms)):
                         insts = INST.instantiate(asm, [g] + list(extra), maxrank=maxrank)
@@ -347,7 +380,7 @@ def discharge(obls, timeout_ms=10000, external=True, hints=None):
                         break
                 if allok:
                     r.status = 'unsat'
-                    r.solver = 'z3-5.1.0+inst'
+                    r.solver = 'z3-5.1.0+inst' + ('+ematch' if used_e[0] else '')
                     st_['done'] = True
             except z3.Z3Exception as e:
                 r.reason = str(e)
